@@ -53,6 +53,14 @@ def consistent(obj):
         for k, v in (obj.atcharges or {}).items():
             if np.shape(v) != (n,):
                 bad.append(f"atcharges[{k}].shape={np.shape(v)} natom={n}")
+        # force-field parameters are per-atom arrays by the data model; the per-atom arrays the readers document under `extra`
+        for k, v in (obj.atffparams or {}).items():
+            if hasattr(v, "shape") and (len(np.shape(v)) < 1 or np.shape(v)[0] != n):
+                bad.append(f"atffparams[{k}].shape={np.shape(v)} natom={n}")
+        for k in ("occupancies", "bfactors", "chainids", "velocities", "segid", "resid"):
+            v = (obj.extra or {}).get(k)
+            if v is not None and hasattr(v, "shape") and (len(np.shape(v)) < 1 or np.shape(v)[0] != n):
+                bad.append(f"extra[{k}].shape={np.shape(v)} natom={n}")
         if obj.athessian is not None and obj.athessian.shape != (3 * n, 3 * n):
             bad.append(f"athessian.shape={obj.athessian.shape} natom={n}")
     mo = obj.mo
